@@ -85,9 +85,9 @@ func loadHarnessFiles(prop string) ([]harnessFile, error) {
 	var out []harnessFile
 	dir := filepath.Join(*flagVerif, "harness", prop)
 	ents, err := os.ReadDir(dir)
-	if err != nil {
+	if err != nil && !os.IsNotExist(err) {
 		return nil, err
-	}
+	} // (a property whose harnesses all live in harness/common has no directory of its own)
 	dirRe := regexp.MustCompile(`(?m)^//verif:dir\s+(\S+)`)
 	for _, e := range ents {
 		if !strings.HasSuffix(e.Name(), ".go") {
